@@ -3108,6 +3108,10 @@ class Wallet(object):
                 self._key_objects[kb['id']]._balance = kb['balance']
         self.session.bulk_update_mappings(DbKey, key_balance_list)
         self._commit()
+        # Bulk update bypasses the session: expire balances of key records already loaded in this session
+        for db_obj in list(self.session.identity_map.values()):
+            if isinstance(db_obj, DbKey):
+                self.session.expire(db_obj, ['balance'])
         _logger.info("Got balance for %d key(s)" % len(key_balance_list))
         return self._balances
 
